@@ -83,8 +83,8 @@ Inductive ev :=
 | StreamNext (o : nat) | StreamFinish (o : nat)
 | Advance (dt : Z).
 
-Definition fill_reply (p : option resp) (c : cop) : cop :=
-  if waiting c then c <| o_reply := OsFilled p |> else c.   (* send to a dropped receiver fails; value lost *)
+Definition fill_reply (p : option resp) (c : cop) : cop :=   (* send to a dropped receiver fails; a one-shot is sent at most once *)
+  if waiting c then match o_reply c with OsEmpty => c <| o_reply := OsFilled p |> | _ => c end else c.
 
 Definition step (s : st) (e : ev) : st :=
   match e with
